@@ -348,7 +348,7 @@ def project_metrics(res, model, naming):
 
 def exec_metrics(obj, objid, model, naming, flt=None, seqno=1, with_agree=True):
     """FMMetrics on an existing object (with an optional only_these_metrics filter)."""
-    args = {'op': 'metrics', 'obj': objid, 'f': '', 'seq': seqno,
+    args = {'op': 'metrics', 'obj': objid, 'f': ('filter:' + ','.join(flt)) if flt is not None else '', 'seq': seqno,
             'filtered': flt is not None, 'filter': list(flt) if flt is not None else []}
     out = 'value'
     ret = empty_ret()
